@@ -256,6 +256,11 @@ def inputs(ctx):
         want = n <= 14 and dz >= 0.05 and nm < (260 if ctx.quick else 2500)
         nm += want
         items.append(("z%d" % k, P.tolist(), dx, dy, dz, x_max, y_range, want))
+    # a few long curves (size-dependent code paths)
+    for j, n in enumerate([1500, 4000] if ctx.quick else [1500, 4000, 4000, 12000]):
+        P = curves.mrc_curve(rng, n, n)
+        items.append(("zlong%d" % j, P.tolist(), rng.choice([0.05, 0.1]), rng.choice([0.05, 0.1]), rng.choice([0.1, 0.3]), None,
+                      None if j % 2 == 0 else [1.0, 0.0], False))
     return items
 
 
